@@ -171,10 +171,10 @@ func genOp(rt *rapid.T, l string, timerMs int, pool [][][2]string, hostile bool)
 
 func genCfg(rt *rapid.T) SysCfg {
 	return SysCfg{
-		DBTimerMs:     rapid.SampledFrom([]int{13, 103, 103, 211, 211, 1999}).Draw(rt, "cfg.timer"),
-		DBBulk:        rapid.SampledFrom([]int64{0, 0, 1, 300, 100000000}).Draw(rt, "cfg.bulk"),
-		ChSample:      rapid.SampledFrom([]int{1, 1, 2, 3}).Draw(rt, "cfg.chs"),
-		ChTS:          rapid.SampledFrom([]int{1, 1, 2}).Draw(rt, "cfg.chts"),
+		DBTimerMs: rapid.SampledFrom([]int{13, 103, 103, 211, 211, 1999}).Draw(rt, "cfg.timer"),
+		DBBulk:    rapid.SampledFrom([]int64{0, 0, 1, 300, 100000000}).Draw(rt, "cfg.bulk"),
+		ChSample:  rapid.SampledFrom([]int{1, 1, 2, 3}).Draw(rt, "cfg.chs"),
+		ChTS:      rapid.SampledFrom([]int{1, 1, 2}).Draw(rt, "cfg.chts"),
 		// 0 = "no attempt at all": retry-go then never calls the insert and reports an (empty) error, every push is refused
 		RetryAttempts: rapid.SampledFrom([]int{1, 2, 3, 4, 1, 2, 3, 4, 0}).Draw(rt, "cfg.retry"),
 		RetryTimeoutS: rapid.IntRange(0, 2).Draw(rt, "cfg.retrys"),
